@@ -8,6 +8,7 @@ import AlatorVerif.Driver.Strat
 import AlatorVerif.Driver.Cb
 import AlatorVerif.Driver.Http
 import AlatorVerif.Driver.Srv
+import AlatorVerif.Driver.Cost
 
 /-- one executable, one sub-command per modelled component; each reads the line protocol on stdin -/
 def main (args : List String) : IO UInt32 := do
@@ -22,5 +23,6 @@ def main (args : List String) : IO UInt32 := do
   | "sched" :: r => Drv.Sched.main r; return 0
   | "strat" :: r => Drv.Strat.main r; return 0
   | "cb" :: _ => Drv.Cb.main; return 0
+  | "cost" :: _ => Drv.Cost.main; return 0
   | "http" :: r => Drv.Http.main r; return 0
   | _ => IO.eprintln "usage: driver <uist|jura|broker|perf|server|sched|strat|cb|http>"; return 2
